@@ -19,21 +19,35 @@ from fractions import Fraction
 
 from harness.common import Check, LEAN, ROOT, canon, write_if_changed
 from harness.lib import duck
-from harness.props.c13 import EXPORTERS, adapter
+from harness.props.c13 import EXPORTERS as _C13_EXPORTERS
+from harness.props.c13 import adapter as _c13_adapter
+
+# the 15th exporter writes a repository (a directory), which C13's mixed directories cannot contain (F12)
+EXPORTERS = dict(_C13_EXPORTERS, AtScaleSML=("atscale_sml.AtScaleSMLAdapter", "sml_repo"))
+
+
+def adapter(name):
+    if name == "AtScaleSML":
+        from sidemantic.adapters.atscale_sml import AtScaleSMLAdapter
+        return AtScaleSMLAdapter()
+    return _c13_adapter(name)
+
 
 AGGS = ["sum", "count", "count_distinct", "avg", "min", "max", "median"]
 FORMATS = [n for n in EXPORTERS if n != "Sidemantic"]
 
 
 def measure_cells():
-    for agg, filt, fmt, expr in itertools.product(AGGS, (False, True), (False, True), ("col", "product")):
-        if agg == "count" and expr == "product":
-            continue
+    for agg, filt, fmt, expr in itertools.product(AGGS, (False, True), (False, True), ("col", "product", "nullable")):
+        if (expr == "nullable") != (agg == "count") and expr != "col":
+            continue          # count: COUNT(*) ("col") and COUNT(<nullable column>) ("nullable"); the others: column and product
         yield f"measure:{agg}:{'filtered' if filt else 'plain'}:{'format' if fmt else 'noformat'}:{expr}", dict(agg=agg, filt=filt, fmt=fmt, expr=expr)
 
 
 STRUCT_CELLS = ["pk_single", "pk_composite", "table_qualified", "sql_model", "rel_many_to_one", "rel_one_to_many", "rel_one_to_one",
-                "dim_time_month", "dim_numeric", "dim_boolean", "segment"]
+                "dim_time_month", "dim_numeric", "dim_boolean", "segment",
+                # pairs: relationship type x key of the related model (the join key a relationship relies on when it names none)
+                "rel_many_to_one+pk_custom", "rel_many_to_one+pk_composite", "rel_many_to_one+pk_explicit", "rel_one_to_many+pk_custom", "rel_one_to_one+pk_custom"]
 
 
 def build_struct_graph(kind):
@@ -58,9 +72,21 @@ def build_struct_graph(kind):
         kw["segments"] = [Segment(name="done", sql="{model}.status = 'completed'")]
     rels = []
     if kind.startswith("rel_"):
-        t = kind[4:]
-        rels = [Relationship(name="customers", type=t, foreign_key="customer_id")]
-        g_customers = Model(name="customers", table="customers", primary_key="id", dimensions=[Dimension(name="tier", type="categorical")], metrics=[Metric(name="n", agg="count")])
+        t, _, variant = kind[4:].partition("+")
+        rkw, cpk = dict(name="customers", type=t, foreign_key="customer_id"), "id"
+        if variant == "pk_custom":
+            cpk = "customer_key"
+        if variant == "pk_composite":
+            cpk, rkw["foreign_key"] = ["tenant", "customer_key"], ["tenant", "customer_id"]
+        if variant == "pk_explicit":
+            rkw["primary_key"] = "code"          # joins on a column that is not the related model's primary key
+        if variant and t == "one_to_many":
+            kw["primary_key"] = "order_key"      # one_to_many joins the related model's foreign key to THIS model's key
+            kw["dimensions"] = dims + [Dimension(name="order_key", type="categorical")]
+        rels = [Relationship(**rkw)]
+        # key columns are also dimensions, for the formats that mark a key on a dimension
+        cdims = [Dimension(name="tier", type="categorical")] + [Dimension(name=c, type="categorical") for c in (cpk if isinstance(cpk, list) else [cpk]) if variant and c != "id"]
+        g_customers = Model(name="customers", table="customers", primary_key=cpk, dimensions=cdims, metrics=[Metric(name="n", agg="count")])
     kw["relationships"] = rels
     if kind.startswith("rel_"):
         g.add_model(g_customers)
@@ -81,7 +107,14 @@ def struct_attr(graph, kind):
         return " ".join((m.sql or "").split()).lower() or None
     if kind.startswith("rel_"):
         r = next((r for r in m.relationships if r.name == "customers"), None)
-        return None if r is None else (r.type, r.foreign_key)
+        if r is None:
+            return None
+        try:      # the join the relationship resolves to: both column lists, also when the relationship names no key itself
+            path = graph.find_relationship_path("orders", "customers")
+            eff = [[list(jp.from_columns), list(jp.to_columns)] for jp in path]
+        except Exception as e:  # noqa: BLE001
+            eff = type(e).__name__
+        return (r.type, r.foreign_key, eff)
     if kind == "dim_time_month":
         d = m.get_dimension("created")
         return None if d is None else (d.type, d.granularity)
@@ -101,6 +134,22 @@ DEFAULTS = {"pk_single": ["id"], "pk_composite": ["id"], "table_qualified": ["or
             "dim_numeric": ["categorical"], "dim_boolean": ["categorical"], "segment": [None]}
 
 
+def rel_only_lost(g0, g1):
+    """the effective join of orders -> customers differs, but only through losses the property allows: a model's primary
+    key fell back to the default `id`, or a join column the relationship named explicitly fell back to the related key"""
+    norm = lambda v: list(v) if isinstance(v, (list, tuple)) else v
+    o0, o1, c0, c1 = g0.models["orders"], g1.models["orders"], g0.models["customers"], g1.models.get("customers")
+    r0 = next(r for r in o0.relationships if r.name == "customers")
+    r1 = next(r for r in o1.relationships if r.name == "customers")
+    if c1 is None or r0.type != r1.type or norm(r0.foreign_key) != norm(r1.foreign_key):
+        return False
+    pk_lost = lambda a, b: b.primary_key == "id" and a.primary_key != "id"
+    # the key the relationship resolves to after the round trip is the one it named before, or the related model's key
+    resolved1 = norm(r1.primary_key) if r1.primary_key is not None else norm(c1.primary_key)
+    named_ok = (r0.primary_key is not None and resolved1 == norm(r0.primary_key)) or resolved1 == norm(c1.primary_key)
+    return named_ok and (pk_lost(c0, c1) or pk_lost(o0, o1) or (r0.primary_key is not None and resolved1 == norm(c1.primary_key)))
+
+
 def evaluate_struct(fmt, kind):
     g0 = build_struct_graph(kind)
     a0 = struct_attr(g0, kind)
@@ -116,6 +165,8 @@ def evaluate_struct(fmt, kind):
         outcome = "same"
     elif a1 is None or a1 in DEFAULTS.get(kind, []) or norm(a1) in [norm(x) for x in DEFAULTS.get(kind, [])] or (kind.startswith("rel_") and a1 is None):
         outcome = "lost"            # the format has no syntax for it / it falls back to the default: allowed, reported
+    elif kind.startswith("rel_") and rel_only_lost(g0, g1):
+        outcome = "lost"
     else:
         outcome = "changed"
     fixed = True
@@ -133,7 +184,7 @@ def build_graph(cell):
     g = SemanticGraph()
     kw = dict(name="m", agg=cell["agg"])
     if not (cell["agg"] == "count" and cell["expr"] == "col"):
-        kw["sql"] = "amount" if cell["expr"] == "col" else "amount * qty"
+        kw["sql"] = "amount" if cell["expr"] in ("col", "nullable") else "amount * qty"
     if cell["agg"] == "count_distinct":
         kw["sql"] = "customer_id" if cell["expr"] == "col" else "amount * qty"
     if cell["filt"]:
